@@ -353,7 +353,7 @@ Definition mkdir (s : fsys) (v : view) (name : str) (perm : N) : fsys * res :=
       let r := search_node s v name SlLstat in
       if negb (is_not_exist (sr_err r)) || negb (pi_is_last (sr_pi r)) then (s, RFail (sr_err r))
       else match sr_parent r with
-           | None => (s, RPanic)
+           | None => (s, RFail (sr_err r))     (* the path is a volume that does not exist *)
            | Some parent =>
                if negb (perm_on (f_heap s) parent (N.lor OpenWrite OpenLookup) (v_user v)) then (s, RFail EPermDenied)
                else
@@ -442,7 +442,7 @@ Definition open_file (s : fsys) (v : view) (view_ix : nat) (name : str) (flag pe
     if is_not_exist e then
       if negb (has om OpenCreate) then (s, inl (RFail e))
       else match sr_parent r with
-           | None => (s, inl RPanic)
+           | None => (s, inl (RFail e))
            | Some parent =>
                if negb (perm_on h parent (N.lor OpenWrite OpenLookup) (v_user v))
                then (s, inl (RFail EPermDenied))
@@ -576,6 +576,8 @@ Definition rename (s : fsys) (v : view) (oldpath newpath : str) : fsys * res :=
                    end
                | None => move h
                end
+         | Some _, Some _, None =>      (* newpath is a volume that does not exist *)
+             (s, if is_not_exist (sr_err rn) then RFail (sr_err rn) else RPanic)
          | _, _, _ => (s, RPanic)
          end.
 
@@ -591,7 +593,7 @@ Definition link (s : fsys) (v : view) (oldname newname : str) : fsys * res :=
         if negb (is_not_exist (sr_err rn)) then (s, RFail (if win v then EW_AlreadyExists else sr_err rn))
         else if negb (pi_is_last (sr_pi rn)) then (s, RFail (sr_err rn))
         else match sr_parent rn with
-             | None => (s, RPanic)
+             | None => (s, RFail (sr_err rn))
              | Some np =>
                  let h := f_heap s in
                  if negb (perm_on h np OpenWrite (v_user v)) then (s, RFail EPermDenied)
@@ -609,7 +611,7 @@ Definition symlink (s : fsys) (v : view) (oldname newname : str) : fsys * res :=
   let r := search_node s v newname SlLstat in
   if negb (is_not_exist (sr_err r)) || negb (pi_is_last (sr_pi r)) then (s, RFail (sr_err r))
   else match sr_parent r with
-       | None => (s, RPanic)
+       | None => (s, RFail (sr_err r))
        | Some parent =>
            if negb (perm_on (f_heap s) parent OpenWrite (v_user v)) then (s, RFail EPermDenied)
            else (create_symlink s v parent (pi_part (sr_pi r)) (clean (v_os v) oldname), ROk)
